@@ -40,6 +40,7 @@ func runC02(c *Ctx) {
 	ruleR02_1(c)
 	ruleRouteAuthenticatorsBuilt(c, "R02.6")
 	ruleRoutableAPIDelegates(c, "R02.2", "Authorizer", "AuthenticatorsFor")
+	ruleAuthenticatorsByDefinitionName(c, "R02.2")
 	ruleBearerCallbackGetsScopes(c, "R02.6")
 	ruleHandlerTableRead(c, "R02.1")
 	ruleResetAuthShadows(c, "R02.5")
@@ -874,4 +875,76 @@ func requirementAlternatives(c *Ctx, rule string) (ssa.Value, bool) {
 		return nil, false
 	}
 	return prm, true
+}
+
+// ruleAuthenticatorsByDefinitionName: the untyped API hands a route the authenticator registered under the NAME of each
+// security definition — never one found under another key (the scheme's type, its "in", a default): a definition without
+// a registration stays without an authenticator, so no request satisfies an alternative that names it.
+func ruleAuthenticatorsByDefinitionName(c *Ctx, rule string) {
+	p := c.P
+	f := p.Fn("(*rt/middleware/untyped.API).AuthenticatorsFor")
+	if f == nil || len(f.Params) < 2 {
+		return
+	}
+	loops := mapLoops(f, vIs(f.Params[1]))
+	var key ssa.Value
+	var val ssa.Value
+	if len(loops) == 1 && loops[0].Next.Referrers() != nil {
+		for _, ref := range *loops[0].Next.Referrers() {
+			if ex, ok := ref.(*ssa.Extract); ok && ex.Index == 1 {
+				key = ex
+			} else if ok && ex.Index == 2 {
+				val = ex
+			}
+		}
+	}
+	var dependsOn func(v, on ssa.Value, d int) bool
+	dependsOn = func(v, on ssa.Value, d int) bool {
+		if v == on {
+			return true
+		}
+		if d > 6 {
+			return false
+		}
+		in, ok := v.(ssa.Instruction)
+		if !ok {
+			return false
+		}
+		if al, isAl := v.(*ssa.Alloc); isAl {
+			// the range value copied into an addressable local
+			for _, st := range storesToCell(al) {
+				if dependsOn(st.Val, on, d+1) {
+					return true
+				}
+			}
+			return false
+		}
+		for _, op := range in.Operands(nil) {
+			if *op != nil && dependsOn(*op, on, d+1) {
+				return true
+			}
+		}
+		return false
+	}
+	n := 0
+	for _, in := range instrs(f) {
+		lk, ok := in.(*ssa.Lookup)
+		if !ok || !vFieldLoad("rt/middleware/untyped.API", "authenticators", nil)(lk.X) {
+			continue
+		}
+		n++
+		okK := false
+		if key != nil {
+			okK, _ = allOrigins(lk.Index, oIsValue(key))
+		}
+		switch {
+		case okK:
+			c.obI(rule, lk, "authenticator-found-under-definition-name", true, "the authenticator of a security definition is the one registered under that definition's name", "")
+		case val != nil && dependsOn(lk.Index, val, 0):
+			c.obI(rule, lk, "authenticator-found-under-definition-name", false, "the authenticator of a security definition is the one registered under that definition's name", "the registry is read under a key taken from the scheme itself ("+describe(lk.Index)+"): a definition nobody registered is served by another scheme's authenticator")
+		default:
+			c.obRI(rule, lk, "authenticator-found-under-definition-name", false, "the authenticator of a security definition is the one registered under that definition's name", "lookup key "+describe(lk.Index))
+		}
+	}
+	c.obRF(rule, f, "reads-authenticators", n >= 1, "AuthenticatorsFor reads the registry of authenticators", "")
 }
